@@ -38,7 +38,10 @@ ID = "X04"
 LEVEL = "model_checking"
 TRACE_MODULE = "Trace_Cli"
 REQUIRE_CLAUSES = ["completes", "error_equals_library", "rejects_documented_error", "out_at_explicit_path",
-                   "out_equals_library", "inputs_untouched", "default_to_stdout", "default_name_ext", "no_overwrite"]
+                   "out_equals_library", "inputs_untouched", "default_to_stdout", "default_name_ext", "no_overwrite",
+                   "fbase_strips_directory", "fbase_strips_extension", "fbase_known_multipart", "ae_raises_iff_unequal",
+                   "ae_message_as_doctest", "cu_returns_the_item", "cu_rejects_different_items", "tsv_header_then_rows",
+                   "text_blocks_in_order", "ep_dirs_created", "ep_path_clear", "ep_nothing_lost"]
 
 # Findings of this extension that main has not yet triaged.  They are NOT applied by default (known findings live in
 # /verif/known_findings.json only); X04_PROPOSED_KNOWN=1 applies the proposed entries for a demonstration run.
@@ -1098,6 +1101,164 @@ def _count(ctx, var, e, beh):
         ctx.count_input(["flag", var["cmd"], f["opt"], f["flag"]], nontrivial=True)
 
 
+# --------------------------------------------------------------------------- helper functions (one call per record)
+TRACE_UNITS = "Trace_CliUnits"
+UNIT_CLAUSES = ["fbase_strips_directory", "fbase_strips_extension", "fbase_known_multipart", "ae_raises_iff_unequal",
+                "ae_message_as_doctest", "cu_returns_the_item", "cu_rejects_different_items", "tsv_header_then_rows",
+                "text_blocks_in_order", "ep_dirs_created", "ep_path_clear", "ep_nothing_lost"]
+FBASE_ALPHABET = ["S", "", "gz", "cnn", "csv", "bam", "targetcoverage", "antitargetcoverage", "recal", "deduplicated", "realign"]
+PROPOSED_KNOWN.append(
+    {"id": "F-X04-assert-equal-message-order", "status": "open", "property": "X04", "clauses": ["ae_message_as_doctest"],
+     "trigger": "AssertEqualMessageOrder", "ops": ["assert_equal"],
+     "what": "core.assert_equal: the docstring's example promises 'Mismatch: expected = 1, saw = 2' (keywords in the order given); "
+             "values.popitem() takes the LAST keyword first, the message reads 'Mismatch: saw = 2, expected = 1' (cosmetic)"})
+
+
+def _tree(root):
+    dirs, files = [], []
+    for dp, dn, fn in os.walk(root):
+        for d in dn:
+            dirs.append(os.path.relpath(os.path.join(dp, d), root).replace(os.sep, "/"))
+        for f in fn:
+            rel = os.path.relpath(os.path.join(dp, f), root).replace(os.sep, "/")
+            with open(os.path.join(dp, f)) as h:
+                files.append([rel, int(h.read().strip())])
+    return {"dirs": sorted(dirs), "files": sorted(files)}
+
+
+def execute_unit(inp):
+    """one call of a helper function of cnvlib.core / cnvlib.cmdutil -> record"""
+    from cnvlib import cmdutil
+    from cnvlib import core as cnvcore
+    op = inp["op"]
+    rec = dict(inp, err="")
+    if op == "fbase":
+        path = (inp["d"] + "/" if inp["d"] else "") + ".".join(inp["n"])
+        out = cnvcore.fbase(path)
+        rec.update(outn=out.split("."), has_slash="/" in out)
+    elif op == "assert_equal":
+        rec["msgkeys"] = []
+        try:
+            cnvcore.assert_equal("M", **dict(zip(inp["keys"], inp["vals"])))
+        except ValueError as ex:
+            rec["err"] = "ValueError"
+            body = str(ex)
+            if not body.startswith("M: "):
+                raise MachineryError(f"assert_equal message not understood: {body!r}")
+            rec["msgkeys"] = [part.split(" = ")[0] for part in body[3:].split(", ")]
+        except Exception as ex:
+            rec["err"] = _errname(ex)
+    elif op == "check_unique":
+        rec["out"] = 0
+        try:
+            rec["out"] = int(cnvcore.check_unique(iter(inp["items"]), "test"))
+        except Exception as ex:
+            rec["err"] = _errname(ex)
+    elif op in ("write_tsv", "write_text"):
+        top = tempfile.mkdtemp(prefix="x04-u-")
+        try:
+            path = os.path.join(top, "out.txt")
+            try:
+                if op == "write_tsv":
+                    cmdutil.write_tsv(path, [tuple(r) for r in inp["rows"]], inp["colnames"] or None)
+                else:
+                    cmdutil.write_text(path, *inp["texts"])
+            except Exception as ex:
+                rec["err"] = _errname(ex)
+            text = open(path).read() if os.path.exists(path) else ""
+        finally:
+            shutil.rmtree(top, ignore_errors=True)
+        if op == "write_tsv":
+            rec["lines"] = [ln.split("\t") for ln in text.split("\n")[:-1]] if text.endswith("\n") else [["<no trailing newline>"]]
+        else:
+            rec["content"] = text
+    elif op == "ensure_path":
+        top = tempfile.mkdtemp(prefix="x04-u-")
+        cwd0 = os.getcwd()
+        try:
+            for d in inp["mkdirs"]:
+                os.makedirs(os.path.join(top, d), exist_ok=True)
+            full = (inp["path"]["d"] + "/" if inp["path"]["d"] else "") + inp["path"]["name"]
+            for k, (suffix, cid) in enumerate(inp["existing"]):
+                fp = os.path.join(top, full + suffix)
+                if os.path.isdir(os.path.dirname(fp)):
+                    with open(fp, "w") as f:
+                        f.write(f"{cid}\n")
+            rec["pre"] = _tree(top)
+            rec["ret"] = False
+            os.chdir(top)
+            try:
+                rec["ret"] = bool(cnvcore.ensure_path(full))
+            except Exception as ex:
+                rec["err"] = _errname(ex)
+            os.chdir(cwd0)
+            rec["post"] = _tree(top)
+        finally:
+            os.chdir(cwd0)
+            shutil.rmtree(top, ignore_errors=True)
+        parts = inp["path"]["d"].split("/") if inp["path"]["d"] else []
+        rec["updirs"] = ["/".join(parts[:k]) for k in range(1, len(parts) + 1)]
+    else:
+        raise MachineryError(f"unknown unit op {op}")
+    return rec
+
+
+def unit_inputs(ctx):
+    import itertools
+    thorough = ctx.tier == "thorough"
+    rng = ctx.rng
+    out = []
+    # fbase: every name of <= 4 components over the alphabet of the extensions the function knows (exhaustive)
+    dirs = ["", "d", "d.e/f"]
+    k = 0
+    for ln in (1, 2, 3, 4):
+        for n in itertools.product(FBASE_ALPHABET, repeat=ln):
+            for d in (dirs if thorough else [dirs[k % 3]]):
+                out.append({"op": "fbase", "d": d, "n": list(n)})
+            k += 1
+    for _ in range(3000 if thorough else 300):          # longer names
+        out.append({"op": "fbase", "d": rng.choice(dirs), "n": [rng.choice(FBASE_ALPHABET) for _ in range(rng.randint(5, 7))]})
+    # assert_equal / check_unique: exhaustive small scopes
+    keys = ["expected", "saw", "a", "b"]
+    for nk in (2, 3, 4):
+        for ks in itertools.permutations(keys, nk):
+            for vals in itertools.product((1, 2), repeat=nk):
+                out.append({"op": "assert_equal", "keys": list(ks), "vals": list(vals)})
+    for ln in range(0, 5):
+        for items in itertools.product((1, 2, 3), repeat=ln):
+            out.append({"op": "check_unique", "items": list(items)})
+    # writers
+    words = ["chr1", "0", "10.5", "gene A", "", "-", "x,y", "NA"]
+    for _ in range(200 if thorough else 60):
+        ncol = rng.randint(1, 4)
+        out.append({"op": "write_tsv", "colnames": [f"c{j}" for j in range(ncol)] if rng.random() < 0.6 else [],
+                    "rows": [[rng.choice(words) for _ in range(ncol)] for _ in range(rng.randint(0, 4))]})
+        out.append({"op": "write_text", "texts": [rng.choice(["##header\n", "a\tb\n", "", "no newline", "x\ny\n"])
+                                                  for _ in range(rng.randint(1, 3))]})
+    # ensure_path: directory depth x which directories exist x which of p, p.1, p.2, p.3 exist
+    for d in ("", "x", "x/y", "x/y/z"):
+        parts = d.split("/") if d else []
+        for have in range(len(parts) + 1):
+            mk = ["/".join(parts[:have])] if have else []
+            for mask in range(16):
+                existing = [[sfx, 10 + j] for j, sfx in enumerate(("", ".1", ".2", ".3")) if mask >> j & 1]
+                out.append({"op": "ensure_path", "path": {"d": d, "name": "out.cnn"}, "mkdirs": mk, "existing": existing})
+    return out
+
+
+def run_units(ctx, menu_path):
+    recs = ctx.execute(execute_unit, unit_inputs(ctx))
+    for r in recs:
+        ctx.count_input([r["op"], r.get("n"), r.get("keys"), r.get("vals"), r.get("items"), r.get("rows"), r.get("texts"),
+                         r.get("path"), r.get("mkdirs"), r.get("existing")], nontrivial=True)
+    saved = ctx.known
+    ctx.known = _known(ctx)
+    try:
+        ctx.validate(TRACE_UNITS, recs, env={"MENU_FILE": menu_path})
+    finally:
+        ctx.known = saved
+
+
 # --------------------------------------------------------------------------- the check
 def _sample_inputs(ctx, behs, per_key):
     """all (variant, output selector) pairs, `per_key` input choices each (seeded)"""
@@ -1155,6 +1316,8 @@ def run(ctx: Ctx):
     for bh in behs:
         ctx.count_input([bh["pre"], [s["argv"] for s in bh["steps"]]], nontrivial=True)
     enc = validate_behaviours(ctx, behs, menu_path)
+    # (d) the helper functions on their own: fbase (exhaustive over the extensions it knows), ensure_path, assert_equal ...
+    run_units(ctx, menu_path)
     for k in (0, len(enc) // 2, len(enc) - 1):
         ctx.sample({"argv": [s["argv"] for s in behs[k]["steps"]],
                     "recorded": [{kk: e[kk] for kk in ("err", "liberr", "lib", "so")} for e in enc[k][1:]]})
